@@ -1,18 +1,40 @@
 PROP = {
     "id": "C03",
     "theorem_modules": ["Verif.Properties.C03"],
-    "min_theorems": 1,
+    "min_theorems": 8,
     "required_theorems": [
+        "Verif.Properties.C03.sound_straightline_partial",
+        "Verif.Properties.C03.merge_pointwise",
+        "Verif.Properties.C03.errors_accumulate",
         "Verif.Properties.C03.unsound_witness_loop_then_halt",
+        "Verif.Properties.C03.incomplete_witness_break",
+        "Verif.Properties.C03.incomplete_witness_halt",
+        "Verif.Properties.C03.incomplete_witness_nested_return",
+        "Verif.Properties.C03.incomplete_witness_jump_before_invalidation",
     ],
     "streams": [
         {"name": "lin", "driver": "drv_lin",
-         "quick": {"n": 3000}, "thorough": {"n": 60000, "seeds": 4}},
+         "quick": {"n": 4000}, "thorough": {"n": 60000, "seeds": 4}},
     ],
     "exhaustive": False,
-    "technique": "Lean 4 proof over a port of the checker's resource tracking + independent path semantics + correspondence stream",
-    "level_text": "wip",
-    "level_note": "wip",
-    "assumptions": [],
-    "trusted_base": [],
+    "technique": "Lean 4 proof over a line-by-line port of the checker's resource tracking, judged by an independent "
+                 "path semantics; correspondence stream on generated functions with injected violations",
+    "level_text": "Model: port of sema's resource tracking (Resources / ResourceInfo clones, mergeResourceInfos with "
+                  "return/halt levels, ReturnInfo merges, loop jump offsets, checkResourceLoss with the "
+                  "DefinitelyExited && !MaybeJumped skip, unreachable statements, optional binding, swap) over a "
+                  "statement language read from the real parser's AST. Judge: non-deterministic path semantics "
+                  "(events create/use/move/destroy/scopeEnd, Linear). Proved: soundness of the port w.r.t. the path "
+                  "semantics for straight-line functions (sound_straightline_partial), the pointwise characterisation "
+                  "of Resources.MergeBranches (merge_pointwise), error accumulation. The full-strength statements are "
+                  "false of the code: one soundness counterexample (loop invalidation followed by a halt) and four "
+                  "completeness counterexamples are proved about the port and replayed on the Go checker (known findings). "
+                  "Tie: stream `lin` compares the multiset of error kinds of the real checker with the port on every "
+                  "generated function (0 differences) and judges acceptance against the path semantics (loops unrolled <= 2).",
+    "level_note": "proof (code-shaped model, partial) + CC. Soundness is proved for the straight-line fragment only; "
+                  "conditionals and loops are covered by the stream's path judge, not by a theorem. "
+                  "paths_unroll2_complete is not proved (the judge's completeness verdicts rely on unrolling <= 2).",
+    "assumptions": ["variable names unique per function (generated programs; checked by the driver)",
+                    "the judge enumerates paths with every loop unrolled at most twice"],
+    "trusted_base": ["hand-written port Verif.Model.Lin.Linearity validated by stream lin",
+                     "bridge harness/internal/linsx (AST -> S-expression)", "driver Drv/Lin.lean"],
 }
